@@ -59,7 +59,7 @@ claim("C10",
   "DESIGN.md 15.3/C10")
 claim("C13",
   "Real handleEvents and every protocol handler (polling, stream close, fallback data, hot restart incl. the posted lambda and SessionManager.handleEvent/handleSessionManagerHotRestart, hot restart ack) on an arbitrary byte string (length = shape, bytes symbolic) for four session roles: no panic (index, slice, nil, makeslice, type assertion, nil func), consumed within the buffer. Two genuine defects were found and fixed (known_findings.json).",
-  "post-handshake events only: the handshake readers and the chunking differential (commitRead) are not covered by this harness (the reader bookkeeping is C18); queue empty; goroutines started by handlers are not run; recover() is modelled as 'no panic to recover': every panic is a violation",
+  "handshake phase: arbitrary headers beyond 8 bytes are not decided within minutes (symbolic body length) and are replaced by well-formed headers with arbitrary bodies; the chunking differential (commitRead) is not covered by this harness (the reader bookkeeping is C18); queue empty; goroutines started by handlers are not run; recover() is modelled as 'no panic to recover': every panic is a violation",
   "DESIGN.md 15.3/C13")
 claim("C18",
   "Real connEventHandler.write/writev/doWritev against a kernel model that accepts any prefix, answers EAGAIN or fails per call (pattern = shape): bytes reach the socket exactly once, in order; real onReadReady/maybeExpandReadBuffer/commitRead with chunked kernel reads and partial consumption: the callback always sees exactly the unconsumed bytes followed by the new ones, offsets stay inside the buffer, growth preserves content. Two senders (H_C18_senders): the fast path of wakeUpPeer is stopped in front of every synchronisation operation - also in the middle of its event after a partial kernel write - while the real send loop handles a queued event, with a stale continue token present: every event is written exactly once and none into the middle of another.",
@@ -84,6 +84,7 @@ claim("C14",
   "NOT covered: more than one preemption, Close concurrent with traffic on the raw memory (use-after-unmap), a really killed process, real /proc census, the /dev/shm file back-end; OS model: Mmap of the same fd yields the same region, descriptors received over the socket are modelled as extra references; in the session model the queue memory is harness memory (unmap stubbed)",
   "DESIGN.md 15.3/C14")
 CLAIM_EXTRA = {
+ "C13": " Handshake phase (H_C13_handshake, goroutines as coroutines over the socket model of C12): the real newSession of a server or of a memfd client reads an arbitrary byte string (every byte symbolic; up to 8 bytes, i.e. one header, or a well-formed protocol 2 / protocol 3 header sequence followed by up to 9 arbitrary body bytes; whole or in two pieces) and then end of file: nothing panics and the call returns. One more genuine defect found and fixed (F-HSLEN: short share-memory event bodies crashed the handshake goroutine).",
  "C05": " Stalled send loop (H_C05_slowsend, goroutines as coroutines with the time model): the control connection is busy and sendCh is full while a producer's wake-up waits in the slow path of wakeUpPeer for longer than any time-out; then the connection gets free and the real Session.send loop writes what was queued: every producer returns, nothing is stranded at quiescence, a later element is announced too.",
  "C14": " Callback waiting for data (H_C14_cbwait, goroutines as coroutines): a callback-mode stream whose OnData waits in a read for bytes that never come when the peer dies / the session is closed / the connection fails: the teardown (which waits for the callback goroutine) returns, the parked read fails, census clean - with KNOWN FINDING F-CBCLOSE (C14 view: no close callback for a stream closed while its OnData is in progress).",
  "C19": " Listener (H_C19_listener, H_C19_listenwindow; real newListener/listenLoop/Accept/Close, streamWrapper.Close with every goroutine as a coroutine, stub raw listener and stub Server()): every stream surfaces exactly once, Accept fails after Close instead of hanging, a session ends exactly when the listener and all its connections let go, also when Listener.Close lands in front of any synchronisation operation of the connection intake (one genuine defect found and fixed: F-LNDROP). Full duplex (H_C19_duplex): one Read and one Write of the same adapter touch no pointer-like Go-heap location in conflict without a common lock or atomic access (conflicting-access check).",
@@ -123,7 +124,7 @@ def main():
             "level_claimed": {"category": cat, "text": text + CLAIM_EXTRA.get(pid, ""), "design_ref": ref},
             "level_note": note,
             "technique": TECH % (" and a symbolic thread schedule (lazy round-robin sequentialisation)" if conc else "") + (
-                "; goroutines started by the code under test run as coroutines of the symbolic run (parked at blocking operations, time-outs fire at quiescence)" if pid in ("C05", "C12", "C14", "C17", "C19") else ""),
+                "; goroutines started by the code under test run as coroutines of the symbolic run (parked at blocking operations, time-outs fire at quiescence)" if pid in ("C05", "C12", "C13", "C14", "C17", "C19") else ""),
         })
     na = [{"property_id": p, "reason": r} for p, r in sorted(NOT_APPLICABLE.items())]
     allp = ["C%02d" % i for i in range(1, 21)]
